@@ -1,37 +1,9 @@
 From Coq Require Import ZArith List Lia Bool.
+Require Import Actions Mixed.
 Import ListNotations.
 Open Scope Z_scope.
 
-Inductive kind := KFR | KAdj | KIcs.
-Inductive exn := ValueError | RuntimeError | OutOfFuel.
-Inductive res (A : Type) := Ok (a : A) | Err (e : exn).
-Arguments Ok {A}. Arguments Err {A}.
-Definition bind {A B} (r : res A) (f : A -> res B) : res B := match r with Ok a => f a | Err e => Err e end.
-Notation "'do' x <- a ; b" := (bind a (fun x => b)) (at level 200, x name, a at level 100, b at level 200).
-Definition plan_t := (kind * Z * Z)%type.
-Definition cost (p : plan_t) : Z := snd p.
-
-(* mixed_step_memoization (mixed.py:248-275) incl. the cache_step clamp; pure fuelled form *)
-Fixpoint for_i (cnt : nat) (i : Z) (f : Z -> res Z) (m : option plan_t) : res (option plan_t) :=
-  match cnt with O => Ok m | S c =>
-    do m1 <- f i;
-    let m' := match m with None => Some (KIcs, i, m1) | Some (_, _, c0) => if m1 <=? c0 then Some (KIcs, i, m1) else m end in
-    for_i c (i+1) f m' end.
-Fixpoint memo (fuel : nat) (n s : Z) : res plan_t :=
-  match fuel with O => Err OutOfFuel | S f =>
-  let s := Z.min s (n - 1) in
-  if n <=? 0 then Err ValueError else
-  if (s <? Z.min 1 (n-1)) || (s >? n - 1) then Err ValueError else
-  if n =? 1 then Ok (KFR, 1, 1) else
-  if n <=? s + 1 then Ok (KAdj, 1, n) else
-  if s =? 1 then Ok (KIcs, n - 1, n*(n+1)/2 - 1) else
-  do m <- for_i (Z.to_nat (n - 2)) 2 (fun i => do a <- memo f i s; do b <- memo f (n - i) (s - 1); Ok (i + cost a + cost b)) None;
-  match m with None => Err RuntimeError | Some (k, i, c0) =>
-    do a <- memo f (n - 1) (s - 1);
-    let m1 := 1 + cost a in
-    if m1 <? c0 then Ok (KAdj, 1, m1) else Ok (k, i, c0) end
-  end.
-
+Notation cost := snd (only parsing).
 (* ---- the loop ---- *)
 Lemma for_i_spec : forall cnt i0 f m r, for_i cnt i0 f m = Ok r ->
   match r with
